@@ -656,6 +656,230 @@ Example ex_detaching_setter_breaks_rollback :
   option_map f_pss (get (sheet_cssText_rejected h 0 2) 1) = Some (Some 0).
 Proof. vm_compute. auto. Qed.
 
+(* ------------------------------------------------------------------ a refused @namespace insertion *)
+Definition fields_eq (a b : obj) : Prop :=
+  okind a = okind b /\ f_pr a = f_pr b /\ f_pss a = f_pss b /\ f_par a = f_par b /\ f_own a = f_own b.
+Definition agree_but_pss (a b : obj) : Prop :=
+  okind a = okind b /\ f_pr a = f_pr b /\ f_par a = f_par b /\ f_own a = f_own b /\ kids a = kids b.
+Lemma agree_refl a : agree_but_pss a a.
+Proof. unfold agree_but_pss; tauto. Qed.
+Lemma agree_trans a b c : agree_but_pss a b -> agree_but_pss b c -> agree_but_pss a c.
+Proof. unfold agree_but_pss. intros (A1 & A2 & A3 & A4 & A5) (B1 & B2 & B3 & B4 & B5). repeat split; congruence. Qed.
+
+Lemma link_spec_fields_eq r p a b : fields_eq a b -> link_spec r p a -> link_spec r p b.
+Proof. unfold fields_eq, link_spec. intros (K & A & B & C & D). rewrite K, A, B, C, D. tauto. Qed.
+
+Lemma allkids_pointwise : forall h R, length R = length h ->
+  (forall i o, get h i = Some o -> exists o', get R i = Some o' /\ Permutation (kids o') (kids o)) ->
+  Permutation (allkids R) (allkids h).
+Proof.
+  induction h as [|o t IH]; intros [|o' R'] L H; simpl in *; try discriminate; auto.
+  destruct (H 0 o eq_refl) as (o'' & G & P). simpl in G. inversion G; subst o''.
+  unfold allkids. simpl. apply Permutation_app.
+  - now apply Permutation_map.
+  - apply IH; [lia|]. intros i x Gi. exact (H (S i) x Gi).
+Qed.
+
+(* the heap R agrees with h: same objects, element lists permuted at most, and every object that is somebody's
+   element has the same stored attributes *)
+Lemma LinksOk_transfer h R : LinksOk h -> length R = length h ->
+  (forall i o, get h i = Some o ->
+     exists o', get R i = Some o' /\ Permutation (kids o') (kids o) /\ (In i (allkids h) -> fields_eq o o')) ->
+  LinksOk R.
+Proof.
+  intros [ND E] L H. split.
+  - eapply Permutation_NoDup; [|exact ND]. symmetry. apply allkids_pointwise; auto.
+    intros i o G. destruct (H i o G) as (o' & G' & P & _). eauto.
+  - intros q oq' r x Gq I.
+    assert (q < length h) as Lq. { rewrite <- L. apply nth_error_Some. unfold get in Gq. congruence. }
+    destruct (get h q) as [oq|] eqn:Gh.
+    2:{ unfold get in Gh. apply nth_error_None in Gh. lia. }
+    destruct (H q oq Gh) as (o' & G' & P & _). rewrite Gq in G'. inversion G'; subst o'.
+    assert (In (r, x) (kids oq)) as I0 by (eapply Permutation_in; eauto).
+    destruct (E _ _ _ _ Gh I0) as (ox & Gx & S).
+    destruct (H x ox Gx) as (ox' & Gx' & _ & F).
+    exists ox'. split; auto. eapply link_spec_fields_eq; [|exact S]. apply F. exact (in_allkids h q oq r x Gh I0).
+Qed.
+
+Lemma in_role_kids r x l : In x (role_kids r l) <-> In (r, x) l.
+Proof.
+  unfold role_kids. rewrite in_map_iff. split.
+  - intros ([r' y] & E & I). simpl in E; subst y. apply filter_In in I as [I B]. simpl in B.
+    apply role_eqb_eq in B. now subst.
+  - intros I. exists (r, x). split; auto. apply filter_In. split; auto. simpl. apply role_eqb_refl.
+Qed.
+
+(* computed from the REGENERATED write lists: deleteRule of a sheet and the restore loop touch _parentStyleSheet
+   only, and the restore loop sets it to the sheet *)
+Lemma sheet_delete_only_pss p o : agree_but_pss o (dsite_writes DSheetDelete p o).
+Proof. unfold agree_but_pss. cbn. tauto. Qed.
+Lemma ns_restore_sets_pss p o :
+  agree_but_pss o (apply_writes sheet_insert_ns_restore p o) /\ f_pss (apply_writes sheet_insert_ns_restore p o) = Some p.
+Proof. unfold agree_but_pss. cbn. tauto. Qed.
+
+Lemma restore_rel p : forall l hx opx, ~ In p l -> get hx p = Some opx ->
+  let R := fold_left (restore_one p) l hx in
+  length R = length hx /\
+  get R p = Some (set_kids (kids opx ++ map (pair RTop) l) opx) /\
+  forall i o1, i <> p -> get hx i = Some o1 ->
+    exists o2, get R i = Some o2 /\ agree_but_pss o1 o2 /\ (In i l -> f_pss o2 = Some p) /\ (~ In i l -> o2 = o1).
+Proof.
+  induction l as [|r t IH]; intros hx opx NP Gp; simpl.
+  - repeat split; auto.
+    + now rewrite app_nil_r, set_kids_same.
+    + intros i o1 _ G. exists o1. repeat split; auto using agree_refl. tauto.
+  - assert (r <> p) as Rp by (intros ->; apply NP; now left).
+    assert (~ In p t) as NP' by (intros I; apply NP; now right).
+    set (hx' := restore_one p hx r).
+    assert (get hx' p = Some (set_kids (kids opx ++ [(RTop, r)]) opx)) as Gp'.
+    { unfold hx', restore_one.
+      assert (get (upd hx r (apply_writes sheet_insert_ns_restore p)) p = Some opx) as G0 by (rewrite get_upd_neq; auto).
+      now rewrite (get_upd_eq _ _ _ _ G0). }
+    destruct (IH hx' _ NP' Gp') as (Ln & GR & PW). repeat split.
+    + rewrite Ln. unfold hx', restore_one. now rewrite !length_upd.
+    + rewrite GR. unfold set_kids; simpl. now rewrite <- app_assoc.
+    + intros i o1 Ip G.
+      assert (get hx' i = Some (if Nat.eqb r i then apply_writes sheet_insert_ns_restore p o1 else o1)) as G'.
+      { unfold hx', restore_one. rewrite get_upd_neq by auto. rewrite get_upd, G. now destruct (Nat.eqb r i). }
+      destruct (PW i _ Ip G') as (o2 & G2 & A & InT & NotT). exists o2. split; auto.
+      destruct (Nat.eqb r i) eqn:Er.
+      * apply Nat.eqb_eq in Er; subst i. destruct (ns_restore_sets_pss p o1) as [A1 S1].
+        split; [|split].
+        -- eapply agree_trans; eauto.
+        -- intros _. destruct (in_dec Nat.eq_dec r t) as [I|I]; auto. rewrite (NotT I). exact S1.
+        -- intros N. exfalso. apply N. now left.
+      * apply Nat.eqb_neq in Er. split; [exact A|split].
+        -- intros [E|I]; [congruence|auto].
+        -- intros N. apply NotT. intros I. apply N. now right.
+Qed.
+
+Section NsRefused.
+  Variables (h : heap) (p c : id) (op oc : obj).
+  Hypothesis L : LinksOk h.
+  Hypothesis Gp : get h p = Some op.
+  Hypothesis Kp : okind op = KSheet.
+  Hypothesis Gc : get h c = Some oc.
+  Hypothesis Kc : okind oc = KRule.
+  Hypothesis NC : ~ In c (allkids h).
+  Let old := role_kids RTop (kids op).
+
+  Lemma old_spec x : In x old -> exists ox, get h x = Some ox /\ link_spec RTop p ox.
+  Proof. intros I. apply in_role_kids in I. destruct L as [_ E]. eapply E; eauto. Qed.
+  Lemma old_ne_p x : In x old -> x <> p.
+  Proof.
+    intros I ->. destruct (old_spec p I) as (ox & G & (K & _)). rewrite Gp in G. inversion G; subst ox.
+    simpl in K. congruence.
+  Qed.
+  Lemma c_ne_p : c <> p.
+  Proof. intros ->. rewrite Gp in Gc. inversion Gc; subst oc. congruence. Qed.
+  Lemma c_notin_old : ~ In c old.
+  Proof. intros I. apply NC. apply in_role_kids in I. exact (in_allkids h p op RTop c Gp I). Qed.
+
+  Definition nsA (hx : heap) : Prop :=
+    length hx = length h /\
+    (exists K, get hx p = Some (set_kids K op) /\ without_role RTop K = without_role RTop (kids op) /\
+               forall x, In (RTop, x) K -> x = c \/ In x old) /\
+    (forall i o, i <> p -> get h i = Some o ->
+       exists o', get hx i = Some o' /\ agree_but_pss o o' /\ (~ (i = c \/ In i old) -> o' = o)).
+
+  Lemma nsA_start idx : nsA (raw_insert h p c idx).
+  Proof.
+    unfold nsA, raw_insert. split; [apply length_upd|split].
+    - exists (ins RTop c idx (kids op)). split; [|split].
+      + now rewrite (get_upd_eq _ _ _ _ Gp).
+      + apply without_role_ins.
+      + intros x I. eapply Permutation_in in I; [|apply ins_perm]. destruct I as [I|I].
+        * inversion I. now left.
+        * right. now apply in_role_kids.
+    - intros i o Ip G. exists o. rewrite get_upd_neq by auto. split; [auto|split; auto using agree_refl].
+  Qed.
+
+  Lemma nsA_step hx i : nsA hx -> nsA (detach DSheetDelete hx p i).
+  Proof.
+    intros (Ln & (K & GK & WK & SK) & PW). unfold detach, detach_gen. rewrite GK. simpl kids. simpl dsite_role.
+    destruct (del RTop i K) as [[x rest]|] eqn:D.
+    2:{ split; [auto|split; eauto]. }
+    pose proof (del_perm _ _ _ _ _ D) as P.
+    assert (x = c \/ In x old) as Sx. { apply SK. eapply Permutation_in; [symmetry; exact P|]. now left. }
+    assert (x <> p) as Xp. { destruct Sx as [->|I]; [apply c_ne_p|now apply old_ne_p]. }
+    split; [now rewrite !length_upd|split].
+    - exists rest. split; [|split].
+      + rewrite get_upd_neq by auto. now rewrite (get_upd_eq _ _ _ _ GK).
+      + rewrite <- WK. eapply without_role_del; eauto.
+      + intros y I. apply SK. eapply Permutation_in; [symmetry; exact P|]. now right.
+    - intros j o Jp G. destruct (PW j o Jp G) as (o' & G' & A & U).
+      rewrite get_upd, get_upd_neq by auto. rewrite G'. destruct (Nat.eqb x j) eqn:Ex; simpl.
+      + apply Nat.eqb_eq in Ex; subst j. eexists; split; [reflexivity|split].
+        * eapply agree_trans; [exact A|apply sheet_delete_only_pss].
+        * intros N. exfalso. now apply N.
+      + eexists; split; [reflexivity|split; auto].
+  Qed.
+
+  Lemma nsA_fold dels : forall hx, nsA hx -> nsA (fold_left (fun h i => detach DSheetDelete h p i) dels hx).
+  Proof. induction dels as [|i t IH]; simpl; intros hx A; auto. apply IH. now apply nsA_step. Qed.
+
+  Lemma ns_pointwise idx dels :
+    let R := sheet_insert_ns_refused h p c idx dels in
+    length R = length h /\
+    forall i o, get h i = Some o ->
+      exists o', get R i = Some o' /\ Permutation (kids o') (kids o) /\
+                 (forall r, role_kids r (kids o') = role_kids r (kids o)) /\
+                 (i <> p -> agree_but_pss o o') /\ (i <> c -> fields_eq o o').
+  Proof.
+    unfold sheet_insert_ns_refused. rewrite Gp. fold old.
+    set (h2 := fold_left _ dels _).
+    assert (nsA h2) as (Ln & (K & GK & WK & SK) & PW) by (apply nsA_fold, nsA_start).
+    set (h3 := upd h2 p _).
+    assert (get h3 p = Some (set_kids (without_role RTop K) op)) as G3 by (unfold h3; now rewrite (get_upd_eq _ _ _ _ GK)).
+    assert (~ In p old) as NP by (intros I; now apply (old_ne_p p I)).
+    destruct (restore_rel p old h3 _ NP G3) as (LR & GR & RW). simpl in GR. rewrite WK in GR.
+    split. { rewrite LR. unfold h3. now rewrite length_upd. }
+    intros i o G. destruct (Nat.eq_dec i p) as [->|Ip].
+    - rewrite Gp in G. inversion G; subst o. eexists; split; [exact GR|]. simpl. split; [|split; [|split]].
+      + symmetry. apply perm_split_role.
+      + intros r. apply role_kids_split.
+      + intros N. congruence.
+      + intros _. unfold fields_eq. simpl. tauto.
+    - destruct (PW i o Ip G) as (o' & G' & A & U).
+      assert (get h3 i = Some o') as G3i by (unfold h3; rewrite get_upd_neq; [exact G'|congruence]).
+      destruct (RW i o' Ip G3i) as (o2 & G2 & A2 & InO & NotO).
+      pose proof (agree_trans _ _ _ A A2) as A3. exists o2. split; auto.
+      pose proof A3 as (E1 & E2 & E3 & E4 & E5).
+      split; [now rewrite E5|]. split; [intros r; now rewrite E5|]. split; [auto|].
+      intros Ic. unfold fields_eq. split; [auto|]. split; [auto|]. split; [|auto]. destruct (in_dec Nat.eq_dec i old) as [I|I].
+      + destruct (old_spec i I) as (ox & Gx & (_ & _ & S & _)). rewrite G in Gx. inversion Gx; subst ox.
+        rewrite (InO I). exact S.
+      + rewrite (NotO I). rewrite U; auto. intros [E|E]; auto.
+  Qed.
+End NsRefused.
+
+(* A REFUSED @namespace insertion (raw insert, some deleteRule calls of _cleanNamespaces, then the restore handler:
+   clear, re-attach writes, raw re-insert, raise): LinksOk holds, every object other than the refused rule agrees
+   with itself before (kind, stored attributes, element list of every role), the refused rule keeps its elements
+   and stays outside. The writes of deleteRule and of the restore loop are the regenerated ones: a restore loop
+   that forgets `r._parentStyleSheet = self` breaks ns_restore_sets_pss. *)
+Theorem ns_refused_keeps_links_l : forall h p c op oc idx dels, LinksOk h ->
+  get h p = Some op -> okind op = KSheet -> get h c = Some oc -> okind oc = KRule -> contained h c = false ->
+  let R := sheet_insert_ns_refused h p c idx dels in
+  LinksOk R /\ contained R c = false /\
+  (forall i o, i <> c -> get h i = Some o -> exists o', get R i = Some o' /\ same_obj o o') /\
+  (exists oc', get R c = Some oc' /\ agree_but_pss oc oc').
+Proof.
+  intros h p c op oc idx dels L Gp Kp Gc Kc C R. apply contained_false in C.
+  destruct (ns_pointwise h p c op oc L Gp Kp Gc Kc C idx dels) as (Ln & PW). fold R in Ln, PW.
+  assert (Permutation (allkids R) (allkids h)) as PA.
+  { apply allkids_pointwise; auto. intros i o G. destruct (PW i o G) as (o' & G' & P & _). eauto. }
+  split; [|split; [|split]].
+  - apply (LinksOk_transfer h R L Ln). intros i o G. destruct (PW i o G) as (o' & G' & P & _ & _ & F).
+    exists o'. split; [exact G'|split; [exact P|]]. intros I. apply F. intros E. subst i. contradiction.
+  - destruct (contained R c) eqn:E; auto. apply contained_spec in E. exfalso. apply C.
+    eapply Permutation_in; eauto.
+  - intros i o Ic G. destruct (PW i o G) as (o' & G' & _ & RK & _ & F). exists o'. split; auto.
+    destruct (F Ic) as (F1 & F2 & F3 & F4 & F5). unfold same_obj. repeat split; auto.
+  - destruct (PW c oc Gc) as (o' & G' & _ & _ & A & _). exists o'. split; auto. apply A.
+    intros ->. rewrite Gp in Gc. inversion Gc; subst oc. congruence.
+Qed.
+
 (* rejected calls that reach no assignment site: deleteRule with an index out of range, an insertion of an object
    that is still contained elsewhere -- the step is the identity *)
 Lemma detach_out_of_range d h p i : removed (dsite_role d) h p i = None -> detach d h p i = h.
